@@ -282,7 +282,8 @@ func (c *Ctx) runTLC(r TLCRun) *TLCResult {
 	if r.Timeout == 0 {
 		r.Timeout = 10 * time.Minute
 	}
-	args := []string{fmt.Sprintf("-Xmx%dg", r.HeapGB), "-Xss64m", "-XX:+UseParallelGC", "-XX:ParallelGCThreads=4"}
+	// java.io.tmpdir: TLC leaves an empty tlc-<n> directory per run behind; keep it inside the scratch directory
+	args := []string{fmt.Sprintf("-Xmx%dg", r.HeapGB), "-Xss64m", "-XX:+UseParallelGC", "-XX:ParallelGCThreads=4", "-Djava.io.tmpdir=" + dir}
 	for k, v := range r.Props {
 		args = append(args, "-D"+k+"="+v)
 	}
